@@ -74,25 +74,32 @@ package searchset
 //@
 //@ func splitRanges
 //@   ghostparam tn int
-//@   requires len(matched) > 0 && okMRs(matched, tn) && sortedT(matched)
+//@   ghostparam base int
+//@   requires len(matched) > 0 && okMRs(matched, tn) && sortedT(matched) && sinceMRs(matched, base)
 //@   ensures len(result) > 0 && okGroups(result, tn) && fresh(result) && distinctGroups(result)
+//@   ensures forall g int :: 0 <= g && g < len(result) ==> sinceMRs(result[g], base)
 //@   ensures forall g int :: 0 <= g && g < len(result) ==> fresh(result[g])
 //@   ensures groupOrder(result)
 //@   modifies nothing
 //@   loop 1 invariant 1 <= i && len(mr) > 0 && fresh(mr) && okMRs(mr, tn) && sortedT(mr) && (matchedRanges == nil || fresh(matchedRanges)) && okGroups(matchedRanges, tn)
 //@   loop 1 invariant distinctGroups(matchedRanges) && (forall g int :: 0 <= g && g < len(matchedRanges) ==> fresh(matchedRanges[g]))
 //@   loop 1 invariant groupOrder(matchedRanges) && allBefore(matchedRanges, mr[0].TargetStart)
+//@   loop 1 invariant sinceMRs(mr, base) && (forall g int :: 0 <= g && g < len(matchedRanges) ==> sinceMRs(matchedRanges[g], base))
 //@   loop 1 invariant mr[len(mr)-1].TargetStart <= matched[i-1].TargetStart && (forall g int :: 0 <= g && g < len(matchedRanges) ==> ref(matchedRanges[g]) != ref(mr))
 //@   props C17
 //@
+//@ spec sinceMRs(ms MatchRanges, base int) bool = forall k int :: 0 <= k && k < len(ms) ==> base <= ms[k]
+//@ spec sinceGroups(gs []MatchRanges, base int) bool = forall g int :: 0 <= g && g < len(gs) ==> base <= ref(gs[g]) && sinceMRs(gs[g], base)
+//@
 //@ func untangleSourceRanges
 //@   ghostparam tn int
-//@   requires len(matched) > 0 && okMRs(matched, tn) && sortedT(matched)
-//@   ensures len(result) > 0 && okMRs(result, tn) && sortedT(result)
+//@   ghostparam base int
+//@   requires len(matched) > 0 && okMRs(matched, tn) && sortedT(matched) && sinceMRs(matched, base)
+//@   ensures len(result) > 0 && okMRs(result, tn) && sortedT(result) && sinceMRs(result, base) && fresh(result)
 //@   modifies nothing
-//@   loop 1 invariant 1 <= i && len(mr) > 0 && fresh(mr) && okMRs(mr, tn) && sortedT(mr)
+//@   loop 1 invariant 1 <= i && len(mr) > 0 && fresh(mr) && okMRs(mr, tn) && sortedT(mr) && sinceMRs(mr, base)
 //@   loop 1 invariant i <= len(matched) ==> mr[len(mr)-1].TargetStart <= matched[i-1].TargetStart
-//@   loop 2 invariant 1 <= i && i < j && i + 1 < len(matched) && len(mr) > 0 && fresh(mr) && okMRs(mr, tn) && sortedT(mr) && mr[len(mr)-1].TargetStart <= matched[i-1].TargetStart
+//@   loop 2 invariant 1 <= i && i < j && i + 1 < len(matched) && len(mr) > 0 && fresh(mr) && okMRs(mr, tn) && sortedT(mr) && mr[len(mr)-1].TargetStart <= matched[i-1].TargetStart && sinceMRs(mr, base)
 //@   props C17
 //
 // crossSorted(a, n, b, from): every element of the first n groups of a
@@ -110,24 +117,26 @@ package searchset
 //
 //@ func mergeConsecutiveRanges
 //@   ghostparam tn int
-//@   requires len(matched) > 0 && okGroups(matched, tn) && groupOrder(matched) && distinctGroups(matched)
-//@   ensures len(result) > 0 && okGroups(result, tn)
+//@   ghostparam base int
+//@   requires len(matched) > 0 && okGroups(matched, tn) && groupOrder(matched) && distinctGroups(matched) && 0 < base && sinceGroups(matched, base)
+//@   ensures len(result) > 0 && okGroups(result, tn) && fresh(result)
+//@   modifies since(base)
 //@   loop 1 invariant 1 <= i && len(mr) > 0 && fresh(mr) && okGroups(mr, tn)
 //@   loop 1 invariant forall h int :: i <= h && h < len(matched) ==> okGroup(matched[h], tn)
 //@   loop 1 invariant forall g int, h int :: 0 <= g && g < len(mr) && i <= h && h < len(matched) ==> ref(mr[g]) != ref(matched[h])
-//@   loop 1 invariant crossSorted(mr, matched, i) && distinctGroups(mr)
+//@   loop 1 invariant crossSorted(mr, matched, i) && distinctGroups(mr) && sinceGroups(mr, base)
 //@   loop 1 invariant forall h int :: 0 <= h && h < len(matched) ==> same(matched[h], old(matched[h]))
 //@   loop 1 invariant forall h int, y int :: i <= h && h < len(matched) && 0 <= y && y < len(matched[h]) ==> matched[h][y] == old(matched[h][y])
 //@   loop 2 invariant 1 <= i && i < len(matched) && 1 <= j && len(mr) > 0 && fresh(mr) && okGroups(mr, tn)
 //@   loop 2 invariant forall h int :: i <= h && h < len(matched) ==> okGroup(matched[h], tn)
 //@   loop 2 invariant forall g int, h int :: 0 <= g && g < len(mr) && i <= h && h < len(matched) ==> ref(mr[g]) != ref(matched[h])
-//@   loop 2 invariant crossSorted(mr, matched, i) && distinctGroups(mr)
+//@   loop 2 invariant crossSorted(mr, matched, i) && distinctGroups(mr) && sinceGroups(mr, base)
 //@   loop 2 invariant forall h int :: 0 <= h && h < len(matched) ==> same(matched[h], old(matched[h]))
 //@   loop 2 invariant forall h int, y int :: i <= h && h < len(matched) && 0 <= y && y < len(matched[h]) ==> matched[h][y] == old(matched[h][y])
 //@   loop 3 invariant 1 <= i && i < len(matched) && 1 <= j && j < len(matched[i]) && 0 <= k && k < len(mr[len(mr)-1]) && len(mr) > 0 && fresh(mr) && okGroups(mr, tn)
 //@   loop 3 invariant forall h int :: i <= h && h < len(matched) ==> okGroup(matched[h], tn)
 //@   loop 3 invariant forall g int, h int :: 0 <= g && g < len(mr) && i <= h && h < len(matched) ==> ref(mr[g]) != ref(matched[h])
-//@   loop 3 invariant crossSorted(mr, matched, i) && distinctGroups(mr)
+//@   loop 3 invariant crossSorted(mr, matched, i) && distinctGroups(mr) && sinceGroups(mr, base)
 //@   loop 3 invariant forall h int :: 0 <= h && h < len(matched) ==> same(matched[h], old(matched[h]))
 //@   loop 3 invariant forall h int, y int :: i <= h && h < len(matched) && 0 <= y && y < len(matched[h]) ==> matched[h][y] == old(matched[h][y])
 //@   props C17
@@ -141,6 +150,7 @@ package searchset
 //@   requires wfSS(src) && wfSS(target)
 //@   ensures okMRs(result, len(target.Tokens))
 //@   ensures result == nil || fresh(result)
+//@   ensures forall k int :: 0 <= k && k < len(result) ==> fresh(result[k])
 //@   modifies nothing
 //@
 //@ func extern sort.Sort
@@ -151,15 +161,20 @@ package searchset
 //@
 //@ func getMatchedRanges
 //@   requires wfSS(src) && wfSS(target)
-//@   ensures result == nil || (len(result) > 0 && okGroups(result, len(target.Tokens)))
+//@   ensures result == nil || (len(result) > 0 && okGroups(result, len(target.Tokens)) && fresh(result))
+//@   modifies nothing
 //@   callghost untangleSourceRanges tn = len(target.Tokens)
 //@   callghost splitRanges tn = len(target.Tokens)
 //@   callghost mergeConsecutiveRanges tn = len(target.Tokens)
+//@   callghost untangleSourceRanges base = old(nextref())
+//@   callghost splitRanges base = old(nextref())
+//@   callghost mergeConsecutiveRanges base = old(nextref())
 //@   props C17
 //@
 //@ func FindPotentialMatches
 //@   requires wfSS(src) && wfSS(target)
 //@   ensures result == nil || okGroups(result, len(target.Tokens))
+//@   modifies nothing
 //@   callghost coalesceMatchRanges tn = len(target.Tokens)
-//@   loop 1 invariant 0 <= i && len(matchedRanges) > 0 && okGroups(matchedRanges, len(target.Tokens))
+//@   loop 1 invariant 0 <= i && len(matchedRanges) > 0 && okGroups(matchedRanges, len(target.Tokens)) && fresh(matchedRanges)
 //@   props C17 C13
